@@ -78,6 +78,10 @@ pub struct ObjSpec {
     /// Some(n): the object is (or is taken out of) the n-th vector of the repository's own corpus of that kind
     #[serde(default)]
     pub corpus: Option<u32>,
+    /// Some(k): the value comes out of one of the library's constructors or blinding functions (C01's "conversely"
+    /// clause): Default impls, TxIn::blind_issuances, Transaction::blind, Pset::extract_tx, Pset::from_tx
+    #[serde(default)]
+    pub constructed: Option<u8>,
 }
 
 #[derive(Clone, Debug, Serialize, Deserialize)]
@@ -203,6 +207,106 @@ fn visit_corpus<V: ObjVisitor>(spec: &ObjSpec, vis: V) -> Option<V> {
     None
 }
 
+/// A transaction produced by the library's own constructors / blinding functions.
+pub fn constructed_tx(spec: &ObjSpec, k: u8) -> elements::Transaction {
+    use crate::seams::{Personality, RngPlan, SimRng};
+    use elements::confidential::{Asset, Nonce, Value};
+    use elements::{AssetIssuance, OutPoint, Transaction, TxIn, TxOut};
+    let secp = gen::secp();
+    let mut p = Prng::from_u64(spec.seed ^ 0xC0_57);
+    let mut rng = SimRng::new(&RngPlan { seed: spec.seed ^ 0x51, personality: Personality::Uniform });
+    match k % 4 {
+        0 => {
+            // explicit issuances of every shape, blinded through TxIn::blind_issuances; the issuance range proofs are
+            // then (often) the only witness data of the whole transaction
+            let n_in = p.urange(1, 3);
+            let mut input = Vec::new();
+            for _ in 0..n_in {
+                let mut i = TxIn { previous_output: OutPoint::new(gen::txid(&mut p), p.below(4) as u32), ..Default::default() };
+                let shape = p.below(4);
+                if shape < 3 {
+                    i.asset_issuance = AssetIssuance {
+                        asset_blinding_nonce: if p.chance(1, 4) { *p.pick(&gen::pool().tweaks) } else { gen::ZERO_TWEAK },
+                        asset_entropy: p.arr32(),
+                        amount: if shape == 2 { Value::Null } else { Value::Explicit(1 + p.below(1 << 40)) },
+                        inflation_keys: if shape >= 1 { Value::Explicit(1 + p.below(1000)) } else { Value::Null },
+                    };
+                    if p.chance(3, 4) {
+                        let _ = i.blind_issuances(secp, &mut rng);
+                    }
+                }
+                if p.chance(1, 5) {
+                    i.witness.script_witness = gen::witness_stack(&mut p, 3, 40);
+                }
+                input.push(i);
+            }
+            let output = (0..p.urange(0, 3)).map(|_| if p.coin() { TxOut::new_fee(p.below(10_000), gen::asset_id(&mut p)) } else { TxOut { asset: Asset::Explicit(gen::asset_id(&mut p)), value: Value::Explicit(1 + p.below(1 << 50)), nonce: Nonce::Null, script_pubkey: crate::worlds::ct::addressable_script(&mut p), witness: Default::default() } }).collect();
+            Transaction { version: 2, lock_time: gen::lock_time(&mut p), input, output }
+        }
+        1 => {
+            let w = crate::worlds::ct::build(&crate::worlds::ct::CtSpec::draw(&mut p));
+            let mut tx = w.tx.clone();
+            let _ = tx.blind(&mut rng, secp, &w.secrets, false);
+            tx
+        }
+        2 => {
+            // (extraction of an ARBITRARY PSET is a conversion, not a constructor: a PSET input may carry an issuance
+            // nonce without any issuance amount, which extract_tx copies into a non-canonical null-amount issuance;
+            // only PSETs made from canonical transactions are used here)
+            let mut s = spec.tx.clone();
+            s.coinbase = false;
+            let ps = elements::pset::PartiallySignedTransaction::from_tx(crate::worlds::psetflow::wellformed_tx(&s));
+            ps.extract_tx().unwrap_or_else(|_| Transaction { version: 2, lock_time: elements::LockTime::ZERO, input: vec![], output: vec![] })
+        }
+        _ => Transaction {
+            version: 2,
+            lock_time: elements::LockTime::ZERO,
+            input: (0..p.usize_below(3)).map(|_| TxIn::default()).collect(),
+            output: (0..p.usize_below(3)).map(|_| if p.coin() { TxOut::default() } else { TxOut::new_fee(p.u64(), gen::asset_id(&mut p)) }).collect(),
+        },
+    }
+}
+
+fn visit_constructed<V: ObjVisitor>(spec: &ObjSpec, vis: V) -> Option<V> {
+    let Some(k) = spec.constructed else { return Some(vis) };
+    let mut p = Prng::from_u64(spec.seed ^ 0xDEF);
+    match spec.ty {
+        Ty::Transaction => vis.visit(constructed_tx(spec, k), spec.ty),
+        Ty::TxIn => vis.visit(elements::TxIn::default(), spec.ty),
+        Ty::TxOut => vis.visit(if p.coin() { elements::TxOut::default() } else { elements::TxOut::new_fee(p.u64(), gen::asset_id(&mut p)) }, spec.ty),
+        Ty::TxInWitness => vis.visit(elements::TxInWitness::default(), spec.ty),
+        Ty::TxOutWitness => vis.visit(elements::TxOutWitness::default(), spec.ty),
+        Ty::AssetIssuance => vis.visit(if p.coin() { elements::AssetIssuance::default() } else { elements::AssetIssuance::null() }, spec.ty),
+        Ty::OutPoint => vis.visit(if p.coin() { elements::OutPoint::default() } else { elements::OutPoint::null() }, spec.ty),
+        Ty::Sequence => vis.visit(elements::Sequence::default(), spec.ty),
+        Ty::Script => vis.visit(match p.below(4) { 0 => elements::Script::default(), 1 => elements::Script::new_op_return(&p.bytes(20)), 2 => elements::script::Builder::new().push_int(p.u32() as i64 - (1 << 31)).push_slice(&{ let n = p.usize_below(80); p.bytes(n) }).into_script(), _ => elements::Script::new_v0_wsh(&elements::WScriptHash::from_byte_array(p.arr32())) }, spec.ty),
+        Ty::Params => vis.visit(match p.below(3) { 0 => elements::dynafed::Params::default(), 1 => gen::params(&mut p, 60), _ => match gen::params(&mut p, 60) { elements::dynafed::Params::Full(f) => f.into_compact(), other => other } }, spec.ty),
+        Ty::BlockHeader => {
+            let mut h = gen::header(&mut p, 60);
+            h.ext = elements::BlockExtData::default();
+            vis.visit(h, spec.ty)
+        }
+        Ty::Asset => vis.visit(elements::confidential::Asset::default(), spec.ty),
+        Ty::Value => vis.visit(elements::confidential::Value::default(), spec.ty),
+        Ty::Nonce => vis.visit(elements::confidential::Nonce::default(), spec.ty),
+        Ty::Pset => {
+            use elements::pset::PartiallySignedTransaction as Pset;
+            let ps = match k % 3 {
+                0 => Pset::default(),
+                1 => Pset::new_v2(),
+                _ => {
+                    let mut s = spec.tx.clone();
+                    s.coinbase = false;
+                    Pset::from_tx(crate::worlds::psetflow::wellformed_tx(&s))
+                }
+            };
+            vis.visit(ps, spec.ty)
+        }
+        _ => return Some(vis),
+    }
+    None
+}
+
 /// the transaction a spec stands for, when it is one (for segment maps)
 pub fn spec_tx(spec: &ObjSpec) -> elements::Transaction {
     if let Some(n) = spec.corpus {
@@ -210,11 +314,15 @@ pub fn spec_tx(spec: &ObjSpec) -> elements::Transaction {
             return t;
         }
     }
+    if let Some(k) = spec.constructed {
+        return constructed_tx(spec, k);
+    }
     gen::tx(&spec.tx)
 }
 
 pub fn build_and_visit<V: ObjVisitor>(spec: &ObjSpec, vis: V) {
     let Some(vis) = visit_corpus(spec, vis) else { return };
+    let Some(vis) = visit_constructed(spec, vis) else { return };
     let mut p = Prng::from_u64(spec.seed);
     let s = &spec.tx;
     match spec.ty {
@@ -514,6 +622,10 @@ impl<'a> ObjVisitor for ExecVisitor<'a> {
             ctx.sig("corpus");
             ctx.probe("corpus_vector");
         }
+        if let Some(k) = case.obj.constructed {
+            ctx.sig_n("constructed", (k % 4) as u64);
+            ctx.probe("constructed_value");
+        }
         // ---- reference: the library's own serialize() on a perfect medium
         let Some(reference) = ctx.call(&format!("serialize<{}>", tyname), 0, || encode::serialize(&v)) else {
             ctx.violate(&format!("{}.rtt", prop), &format!("{}|serialize-panic", tyname), format!("serialize of a generated canonical {} panicked", tyname));
@@ -695,7 +807,10 @@ fn draw_obj(p: &mut Prng, types: &[Ty]) -> ObjSpec {
     // one object in eight is (or is cut out of) one of the repository's own vectors
     let n = p.u32();
     let corpus = if p.chance(1, 8) { Some(n) } else { None };
-    ObjSpec { ty, seed: p.u64(), tx, n_tx, pset, corpus }
+    // one in eight comes out of a library constructor / blinding function
+    let k = p.u8();
+    let constructed = if corpus.is_none() && p.chance(1, 7) { Some(k) } else { None };
+    ObjSpec { ty, seed: p.u64(), tx, n_tx, pset, corpus, constructed }
 }
 
 impl World for CodecWorld {
@@ -777,6 +892,9 @@ impl World for CodecWorld {
         if case.deliveries.is_empty() && case.garbage.is_none() {
             if case.obj.corpus.is_some() {
                 out.push(Case { obj: ObjSpec { corpus: None, ..case.obj.clone() }, write_fault: None, read_fault: None, ..case.clone() });
+            }
+            if case.obj.constructed.is_some() {
+                out.push(Case { obj: ObjSpec { constructed: None, ..case.obj.clone() }, write_fault: None, read_fault: None, ..case.clone() });
             }
             for t in case.obj.tx.shrinks() {
                 out.push(Case { obj: ObjSpec { tx: t, ..case.obj.clone() }, write_fault: None, read_fault: None, ..case.clone() });
